@@ -113,7 +113,12 @@ def wrap_solve_t(function, kind):
                 check=check, chk0=chk0, src=src, st0=st0, it0=it0, nargs=len(args),
             )
             if kind == 'linker':
-                fields['submodels'] = repr(kwargs.get('submodels'))
+                selected = kwargs.get('submodels')
+                fields['submodels'] = None if selected is None else [repr(x) for x in selected]
+                fields['all_submodels'] = [repr(k) for k in self.__dict__['submodels']]
+                fields['subs0'] = {
+                    repr(k): list(_state_at(v, t)) for k, v in self.__dict__['submodels'].items()
+                }
         except Exception as e:  # never let the hook change behaviour
             fields = dict(kind=kind, hook_error=repr(e))
         emit('enter', self, **fields)
